@@ -391,6 +391,9 @@ fn cases(tier: Tier) -> Vec<Case> {
         c.exec.select_choice = false;
         c
     }));
+    // "every call and ping resolves" behind an attached stream that is ready every time the loop
+    // looks: the mailbox must get its turn (set-valued, shared with C13)
+    v.extend(crate::props::c13::fair_cases("C02"));
     v
 }
 
@@ -398,7 +401,7 @@ pub fn property() -> Property {
     Property {
         id: "C02",
         cases,
-        clauses: &["own-response", "resolves-after-termination", "error-after-termination", "await-yields-termination-result", "join-none-on-failure", "join-some-on-graceful"],
+        clauses: &["own-response", "resolves-after-termination", "error-after-termination", "await-yields-termination-result", "join-none-on-failure", "join-some-on-graceful", "mailbox-gets-its-turn"],
         full_rerun_check: true,
         assumptions: &[
             "termination = the step in which the actor task ends; graceful = it ended without cancellation after stopped() finished",
